@@ -217,3 +217,83 @@ fn whole_files() {
     }
     println!("STATS {{\"driver\": \"tfm_files\", \"files\": {n_files}, \"warning_free\": {clean}, \"with_warnings\": {with_warnings}, \"rejected\": {rejected}, \"pl_texts_read\": {texts}}}");
 }
+
+// ---------------------------------------------------------------- C11: lig/kern programs with more than 255 instructions
+/// label -> the instruction it points at, read off a LIGTABLE in TFtoPL's layout (LABEL lines precede their instruction)
+fn label_targets(pl: &str) -> std::collections::BTreeMap<String, String> {
+    let mut out = std::collections::BTreeMap::new();
+    let mut pending: Vec<String> = vec![];
+    let mut in_table = false;
+    let mut comment_depth = 0i32;
+    for l in pl.lines() {
+        let t = l.trim();
+        if t == "(LIGTABLE" { in_table = true; continue; }
+        if !in_table { continue; }
+        if comment_depth > 0 { if t == ")" { comment_depth -= 1; } else if t.starts_with("(COMMENT") && !t.ends_with(')') { comment_depth += 1; } continue; }
+        if t.starts_with("(COMMENT") { if !t.ends_with(')') { comment_depth += 1; } continue; }
+        if t == ")" { break; }
+        if let Some(rest) = t.strip_prefix("(LABEL ") { pending.push(rest.trim_end_matches(')').to_string()); continue; }
+        if t.starts_with("(LIG") || t.starts_with("(/LIG") || t.starts_with("(KRN") { for p in pending.drain(..) { out.insert(p, t.to_string()); } }
+    }
+    out
+}
+
+#[test]
+fn large_lig_kern_programs() {
+    std::panic::set_hook(Box::new(|info| { println!("PANICLOC {}", info.to_string().replace('\n', " ").chars().take(300).collect::<String>()); }));
+    let chars: Vec<char> = ('A'..='Z').chain('a'..='z').chain('0'..='9').collect();
+    let fmt = |_: &crate::pl::File| crate::pl::CharDisplayFormat::Default;
+    let mut r = Rng(0xD1B54A32D192ED03);
+    let mut n_files = 0u64;
+    for total in [200usize, 254, 255, 256, 257, 258, 260, 300, 511, 520] { for boundary in [false, true] { for variant in 0..6usize {
+        // label positions: always the last instructions and the neighbourhood of 255 / 256, plus random ones
+        let mut positions: Vec<usize> = vec![0, total - 1];
+        for p in [253usize, 254, 255, 256, 257] { if p < total && (variant + p) % 2 == 0 { positions.push(p); } }
+        for _ in 0..(variant * 3) { positions.push(r.below(total as u64) as usize); }
+        positions.sort(); positions.dedup();
+        positions.truncate(chars.len() - 2);
+        let mut pl = String::from("(DESIGNSIZE R 10.0)\n");
+        if boundary { pl.push_str("(BOUNDARYCHAR C z)\n"); }
+        pl.push_str("(LIGTABLE\n");
+        let mut lab = 0usize;
+        for i in 0..total {
+            if positions.contains(&i) { pl.push_str(&format!("   (LABEL C {})\n", chars[lab])); lab += 1; }
+            // every instruction is distinguishable: a ligature of a unique pair
+            let (x, y) = (chars[i % chars.len()], chars[(i / chars.len() + 7 * (i % chars.len())) % chars.len()]);
+            pl.push_str(&format!("   (LIG C {x} C {y})\n"));
+            // every chain runs from its label to the next one, so that every instruction is reachable
+            if positions.contains(&(i + 1)) || i + 1 == total { pl.push_str("   (STOP)\n"); }
+        }
+        pl.push_str("   )\n");
+        for c in &chars { pl.push_str(&format!("(CHARACTER C {c}\n   (CHARWD R 0.5)\n   )\n")); }
+        n_files += 1;
+        let pl0 = pl.clone();
+        let res = std::panic::catch_unwind(move || {
+            let (t1, w1) = pl_to_tfm(&pl0);
+            let o1 = tfm_to_pl(&t1, 3, &fmt).unwrap();
+            let n1 = o1.error_messages.len();
+            let p1 = o1.pl_data.ok();
+            let t2 = p1.as_ref().map(|p| pl_to_tfm(p).0);
+            // the canonical file is t2: one more round trip must be the identity
+            let t3 = t2.as_ref().and_then(|t| tfm_to_pl(t, 3, &fmt).unwrap().pl_data.ok()).map(|p| pl_to_tfm(&p).0);
+            (t1, w1.len(), p1, n1, t2, t3)
+        });
+        let fail = |obs: String| {
+            println!("WITNESS {{\"fn\": \"pack_entrypoints\", \"unit_fns\": [\"pack_entrypoints\", \"unpack_entrypoint\", \"from\", \"serialize\", \"deserialize\"], \"program\": \"{total} instructions, boundary char: {boundary}, labels at {:?}\", \"observed\": \"{}\", \"expected\": \"every label keeps pointing at its instruction through PL -> TFM -> PL; no warnings; fixed point (C11)\"}}", positions, obs.replace('"', "'"));
+        };
+        match res {
+            Err(_) => { fail("panic".into()); return; }
+            Ok((_t1, w1, p1, n1, t2, t3)) => {
+                let Some(p1) = p1 else { fail("the .tfm written from the property list is rejected".into()); return; };
+                if w1 > 0 || n1 > 0 { fail(format!("{w1} warning(s) reading the list, {n1} message(s) reading the .tfm back")); return; }
+                if t2.is_none() || t3 != t2 { fail("a further round trip changes the canonical .tfm".into()); return; }
+                let (want, got) = (label_targets(&pl), label_targets(&p1));
+                if want != got {
+                    let diff: Vec<String> = want.iter().filter(|(k, v)| got.get(*k) != Some(*v)).map(|(k, v)| format!("{k}: {v} became {:?}", got.get(k))).take(3).collect();
+                    fail(format!("labels moved: {}", diff.join("; "))); return;
+                }
+            }
+        }
+    } } }
+    println!("STATS {{\"driver\": \"large lig/kern programs\", \"files\": {n_files}}}");
+}
